@@ -604,7 +604,8 @@ func (grp *Group) validateCPUResourceFit(allQuotas map[string]*groupQuotaAllocat
 					return fmt.Errorf("sub-group cpu limit of %d%% is too large to fit inside group %q with allowed CPU set %v",
 						cpuRequested, parent.Name, limits.CPUSetLimit)
 				}
-				break
+				// keep going up, a group further up may have a cpu
+				// quota that this group must also fit into
 			}
 		}
 		parent = parent.parentGroup
